@@ -17,12 +17,17 @@ import (
 type Case struct {
 	Prog    []*N           `json:"prog"`
 	GenFeat map[string]int `json:"genfeat,omitempty"`
+	// SlotRoots: positions in Prog of the statements that hold a slot pattern (slots_test.go);
+	// SlotInfo: form and slot classes of each, for the signature
+	SlotRoots []int    `json:"slotroots,omitempty"`
+	SlotInfo  []string `json:"slotinfo,omitempty"`
 }
 
 type g struct {
 	t    *rapid.T
 	id   int64
 	feat map[string]int
+	cur  []string // the features drawn since the current slot pattern began
 	neg  bool // inside a form whose operand order is not specified: negative ids
 	// noFailingBody: callees whose body fails inside the interpreter (slice of a host array) are
 	// only called through a plain call expression (go / defer have their own failure handling)
@@ -37,7 +42,10 @@ func (g *g) nid() int64 {
 	}
 	return g.id
 }
-func (g *g) f(s string) { g.feat[s]++ }
+func (g *g) f(s string) {
+	g.feat[s]++
+	g.cur = append(g.cur, s)
+}
 
 func lit(v interface{}) *N {
 	switch t := v.(type) {
@@ -158,7 +166,7 @@ func (g *g) listE(d int) *N {
 }
 
 func (g *g) condE(d int) *N {
-	k := g.n(0, 6, "cond")
+	k := g.n(0, 7, "cond")
 	if d <= 0 {
 		k %= 2
 	}
@@ -166,6 +174,22 @@ func (g *g) condE(d int) *N {
 	case 0, 1:
 		vals := []interface{}{true, false, 0, 1, nil, "", "abc"}
 		return g.leaf(lit(vals[g.n(0, len(vals)-1, "cv")]), true)
+	case 7:
+		// the binary operator `item in list`: item first, then list - also when the right side turns
+		// out not to be a list (the left operand has run by then) or the left side raises (the right never runs)
+		g.f("in_operator")
+		var r *N
+		switch g.n(0, 5, "inR") {
+		case 0:
+			g.f("in_operator_right_not_a_list")
+			nl := []interface{}{5, nil, "abc", true}
+			r = g.leaf(lit(nl[g.n(0, len(nl)-1, "nl")]), false)
+		case 1:
+			r = g.leaf(&N{K: "list", Ns: []*N{Int(int64(g.n(1, 3, "e0"))), Int(int64(g.n(4, 6, "e1")))}}, true)
+		default:
+			r = g.listE(d - 1)
+		}
+		return &N{K: "in", Ns: []*N{g.intE(d - 1), r}}
 	case 2, 3:
 		g.f("and_or")
 		return &N{K: rapid.SampledFrom([]string{"and", "or"}).Draw(g.t, "ao"), Ns: []*N{g.condE(d - 1), g.condE(d - 1)}}
@@ -202,8 +226,17 @@ func (g *g) anyE(d int) *N {
 		g.f("map_literal")
 		n := g.n(1, 3, "mn")
 		m := &N{K: "map"}
+		if g.n(0, 3, "ifacemap") == 0 {
+			// map{...}: the typed literal with interface keys and values
+			m.K = "imap"
+			g.f("map_literal_interface_typed")
+		}
 		for i := 0; i < n; i++ {
 			m.Ns = append(m.Ns, g.leaf(nil, true), g.anyE(d-1)) // key = unique probe id
+		}
+		if g.n(0, 7, "badkey") == 0 {
+			// a key operand whose value cannot be a map key: ends the evaluation of the operands after it
+			m.Ns[2*g.n(0, n-1, "badpos")] = g.unusableKey()
 		}
 		return m
 	case 5:
@@ -213,14 +246,28 @@ func (g *g) anyE(d int) *N {
 		for i := 0; i < n; i++ {
 			m.Ns = append(m.Ns, g.leaf(Str(fmt.Sprintf("k%d", i)), true), g.intE(d-1))
 		}
-		if g.n(0, 7, "badval") == 0 {
+		switch g.n(0, 9, "badval") {
+		case 0:
 			m.Ns[2*g.n(0, n-1, "badpos")+1] = g.leaf(Str("x"), false)
 			g.f("conversion_error_operand")
+		case 1:
+			// a key that cannot be converted to the key type
+			m.Ns[2*g.n(0, n-1, "badpos")] = g.unusableKey()
 		}
 		return m
 	default:
 		return g.callE(d, -1)
 	}
+}
+
+// unusableKey is a probe whose value (a list or a map) can be the key of no map.
+func (g *g) unusableKey() *N {
+	g.f("conversion_error_operand")
+	g.f("unusable_map_key_operand")
+	if g.n(0, 2, "ukey") == 0 {
+		return g.leaf(&N{K: "map", Ns: []*N{Str("a"), Int(1)}}, false)
+	}
+	return g.leaf(&N{K: "list", Ns: []*N{Int(int64(g.n(1, 9, "uk")))}}, false)
 }
 
 type callee struct {
@@ -496,8 +543,21 @@ func (g *g) root() *N {
 		g.f("op_assign_index_target")
 		g.neg = true
 		defer func() { g.neg = false }()
-		op := rapid.SampledFrom([]string{"+", "-", "*"}).Draw(g.t, "op")
-		return &N{K: "opidx", Ps: []string{op}, Ns: []*N{Id("acc"), g.leaf(Int(int64(g.n(0, 2, "ai"))), false), g.leaf(Int(int64(g.n(1, 5, "av"))), false)}}
+		// every shorthand the grammar has: += -= *= /= &= |=
+		op := rapid.SampledFrom([]string{"+", "-", "*", "/", "&", "|", "&", "|"}).Draw(g.t, "op")
+		g.f("op_assign_" + map[string]string{"+": "add", "-": "sub", "*": "mul", "/": "div", "&": "and", "|": "or"}[op])
+		cont := Id("acc")
+		if g.n(0, 3, "contprobe") == 0 {
+			// the container of the target is an operand of x too
+			g.f("op_assign_container_operand")
+			cont = g.leaf(Id("acc"), false)
+		}
+		rhs := g.leaf(Int(int64(g.n(1, 5, "av"))), false)
+		if g.n(0, 2, "rhs2") == 0 {
+			g.f("op_assign_compound_right_side")
+			rhs = Bin(rapid.SampledFrom([]string{"+", "|", "*"}).Draw(g.t, "rop"), rhs, g.leaf(Int(int64(g.n(1, 5, "av2"))), false))
+		}
+		return &N{K: "opidx", Ps: []string{op}, Ns: []*N{cont, g.leaf(Int(int64(g.n(0, 2, "ai"))), false), rhs}}
 	case 9:
 		g.f("incdec_index_target")
 		g.neg = true
@@ -540,7 +600,20 @@ func gen(t *rapid.T) Case {
 	gg := &g{t: t, feat: map[string]int{}}
 	prog := prelude()
 	nroots := gg.n(1, 3, "roots")
+	var slotRoots []int
+	var slotInfo []string
 	for i := 0; i < nroots; i++ {
+		if gg.n(0, 6, "slotroot") == 0 {
+			// an earlier operand read from a slot that a later operand (or the callee) stores into
+			if len(slotRoots) == 0 {
+				prog = append(prog, slotPrelude()...)
+			}
+			slotRoots = append(slotRoots, len(prog))
+			gg.cur = nil
+			prog = append(prog, &N{K: "try", Ss: [][]*N{gg.slotRoot(), {{K: "expr", Ns: []*N{P(int64(9000 + i))}}}}})
+			slotInfo = append(slotInfo, slotSig(gg.cur))
+			continue
+		}
 		r := gg.root()
 		if r.K == "defer" || r.K == "var" {
 			prog = append(prog, r)
@@ -550,7 +623,7 @@ func gen(t *rapid.T) Case {
 		prog = append(prog, &N{K: "try", Ss: [][]*N{{r}, {{K: "expr", Ns: []*N{P(int64(9000 + i))}}}}})
 	}
 	prog = append(prog, &N{K: "ret", Ns: []*N{{K: "list", Ns: []*N{Id("x"), Id("y"), Id("z"), Id("acc"), gg.anyE(2)}}}})
-	return Case{Prog: prog, GenFeat: gg.feat}
+	return Case{Prog: prog, GenFeat: gg.feat, SlotRoots: slotRoots, SlotInfo: slotInfo}
 }
 
 func countProbes(p []*N) int {
@@ -592,17 +665,119 @@ func oracle(c Case, o *h.Obs) *h.Fail {
 		special = true
 	}
 	o.NonTrivial = countProbes(c.Prog) >= 3 && special
+	if len(c.SlotRoots) > 0 {
+		// a slot pattern: the later operand stores into the slot, the result is assigned and compared
+		o.NonTrivial = true
+	}
 	if !v.OK {
+		if len(c.SlotRoots) > 0 && v.Clause != "no-termination" {
+			// which slot pattern does the difference belong to? The program is judged again with one of
+			// them at a time (and with none)
+			without := func(keep int) []*N {
+				rest := make([]*N, 0, len(c.Prog))
+				for i, s := range c.Prog {
+					drop := false
+					for k, j := range c.SlotRoots {
+						drop = drop || (i == j && k != keep)
+					}
+					if !drop {
+						rest = append(rest, s)
+					}
+				}
+				return rest
+			}
+			if v0 := Judge(without(-1)); v0.OK || v0.Excluded != "" {
+				for k := range c.SlotRoots {
+					v1 := Judge(without(k))
+					if v1.OK || v1.Excluded != "" {
+						continue
+					}
+					info := "?"
+					if k < len(c.SlotInfo) {
+						info = c.SlotInfo[k]
+					}
+					return h.Failf("C07|operand-read-from-a-slot-stored-into-later|"+v1.Clause+"|"+info,
+						"an earlier operand was read from a slot that a later operand of the same expression (or the callee) stores into: it contributes the value it had when it was evaluated\nprogram:\n%s\n%s", v1.Src, v1.Detail)
+				}
+			}
+		}
 		f := h.Failf("C07|"+v.Clause, "program:\n%s\n%s", v.Src, v.Detail)
 		f.NoShrink = v.Clause == "no-termination"
 		return f
 	}
+	if msg := opAssignOrder(c.Prog, v.GotTrace, o); msg != "" {
+		return h.Failf("C07|op-assign-order", "program:\n%s\n%s\nanko trace: %v", v.Src, msg, v.GotTrace)
+	}
 	return nil
+}
+
+// probeIDs collects the ids of the probes below e.
+func probeIDs(e *N) []int64 {
+	var ids []int64
+	Walk([]*N{e}, func(x *N) {
+		if x.K == "p" || x.K == "pfail" {
+			ids = append(ids, x.I)
+		}
+	})
+	return ids
+}
+
+// opAssignOrder checks the one ordering the statement fixes inside `x op= e`: it stands for
+// `x = x op e`, whose right-hand side is the binary operator `x op e` - the operands of x run before
+// those of e. Whether the target x of the assignment is evaluated before or after that right-hand
+// side is not stated, so the traces admitted for `a[i()] op= v()` are i i v and i v i, never v i i:
+// the FIRST evaluation of every operand of x precedes the first evaluation of every operand of e.
+// (The multiplicities are the model's business.) Returns "" when the order holds.
+func opAssignOrder(prog []*N, trace []string, o *h.Obs) string {
+	has := false
+	Walk(prog, func(s *N) { has = has || (s.K == "opidx" && len(s.Ns) >= 3) })
+	if !has {
+		return ""
+	}
+	first := map[int64]int{}
+	for i, e := range trace {
+		if !strings.HasPrefix(e, "p i:") {
+			continue
+		}
+		f := strings.Fields(e[4:])
+		if len(f) == 0 {
+			continue
+		}
+		var id int64
+		if _, err := fmt.Sscanf(f[0], "%d", &id); err != nil {
+			continue
+		}
+		if _, seen := first[id]; !seen {
+			first[id] = i
+		}
+	}
+	msg := ""
+	Walk(prog, func(s *N) {
+		if s.K != "opidx" || len(s.Ns) < 3 || msg != "" {
+			return
+		}
+		xs := append(probeIDs(s.Ns[0]), probeIDs(s.Ns[1])...)
+		es := probeIDs(s.Ns[2])
+		for _, e := range es {
+			ei, ran := first[e]
+			if !ran {
+				continue
+			}
+			for _, x := range xs {
+				if xi, ok := first[x]; !ok || xi > ei {
+					msg = fmt.Sprintf("`x %s= e` stands for `x = x %s e`: the operands of x are evaluated before e (binary operator, left to right), but probe %d of e ran before any evaluation of probe %d of x", s.Ps[0], s.Ps[0], e, x)
+					return
+				}
+			}
+			o.Class("run_op_assign_order_checked")
+		}
+	})
+	return msg
 }
 
 func TestC07(t *testing.T) {
 	c := h.New(t, "C07")
 	defer c.Finish()
-	c.Rule("typed expression generator whose leaves are side-effecting probes p(id[,v]) / pfail(id) with unique ids, over: calls of script functions (arity 0-4 direct path, 5-6 reflect path, variadic) and Go functions (fixed, variadic, typed parameters provoking conversion errors) as plain / spread / wrong-arity / anonymous / go / defer calls, list and map literals (typed and untyped), every binary operator, index, 2- and 3-index slices, return lists, multi-assignment, var, && || ?: ??, a[i] op= e and a[i]++ (multiplicity only), a[i] = e (multiplicity only); non-trivial = >= 3 probe leaves and a short-circuit / raising / unconvertible operand or a reflect-path, variadic, spread, wrong-arity, go or defer call; distinct by source text")
+	c.Rule("typed expression generator whose leaves are side-effecting probes p(id[,v]) / pfail(id) with unique ids, over: calls of script functions (arity 0-4 direct path, 5-6 reflect path, variadic) and Go functions (fixed, variadic, typed parameters provoking conversion errors) as plain / spread / wrong-arity / anonymous / go / defer calls, list and map literals (typed, untyped and map{...}; also with a key operand whose value can be no map key), every binary operator including `in` (also with a right side that is not a list), index, 2- and 3-index slices, return lists, multi-assignment, var, && || ?: ??, a[i] op= e for every op= of the grammar and a[i]++ (multiplicity, and the first evaluation of every operand of the target before e), a[i] = e (multiplicity only); slot patterns (one root in seven): an operand read from a slot - element of a typed slice / untyped list / array field, map entry, struct field, pointee, plain variable; ints, strings, and lists as the container of an index or slice expression - while another operand of the same binary operator, in, index, slice, list / map literal, return list, multi-assignment or var right-hand side, call argument list (every call path, plain and spread, also deferred) or the callee itself stores into that slot: the result is the one computed from the values at evaluation time; non-trivial = a slot pattern, or >= 3 probe leaves and a short-circuit / raising / unconvertible operand or a reflect-path, variadic, spread, wrong-arity, go or defer call; distinct by source text")
 	h.Run(c, "evalorder", c.N(15000, 150000), gen, oracle)
 }
